@@ -34,7 +34,8 @@ def concretise(prog):
 def pre_actions(rng, mx, regvals, stack=True, flags=0x40):
     pre = xc.reg_setup(regvals)
     if stack:
-        pre.append({"op": "init_stack", "len": 0x200})
+        # lengths that are and are not multiples of 8 / 16: "the stack is empty" must not depend on how the length is rounded
+        pre.append({"op": "init_stack", "len": rng.choice([0x200, 0x200, 0x208, 0x1f8, 0x204, 0x1ff, 0x1004, 300])})
     pre.append({"op": "set_rflags", "val": flags})
     if mx is not None and mx >= 0:
         pre.append({"op": "set_max_instructions", "n": mx})
@@ -116,6 +117,9 @@ def stack_discipline_scenarios(rng):
     # two push/ret trampolines in a row
     P.append([{"t": "mov_rax", "imm": 0, "_fix": 3}, {"t": "push_rax"}, {"t": "ret"}, {"t": "mov_rax", "imm": 0, "_fix": 6}, {"t": "push_rax"}, {"t": "ret"},
               {"t": "nop"}, {"t": "ret"}])
+    # entry at the JMP RAX: first to the ADD before it (backward), then - RAX advanced by 6 - past itself: the same indirect jump twice
+    # in a row with different targets and nothing but an ADD between (two log entries, not one with count 2)
+    P.append([{"t": "add_rax", "imm": 6}, {"t": "jmp_rax"}, {"t": "nop"}, {"t": "nop"}])
     scs = []
     for k, insns in enumerate(P):
         for variant in range(3):
@@ -126,11 +130,15 @@ def stack_discipline_scenarios(rng):
                     i["imm"] = prog0.addr[i.pop("_fix")]
             p = xc.Program(ins)
             regs = [rng.getrandbits(64) for _ in xc.GPRS]
+            entry = None
+            if ins[1]["t"] == "jmp_rax" and ins[0]["t"] == "add_rax":
+                regs[0] = p.addr[0]
+                entry = p.addr[1]
             mx = [None, 30, 3][variant]
             pre = pre_actions(rng, mx, regs)
             n = len(ins) + 4
-            scs.append(xc.scenario(f"sd{k}s{variant}", p, pre, [{"op": "step"} for _ in range(n)]))
-            scs.append(xc.scenario(f"sd{k}x{variant}", p, pre, [{"op": "execute"}, {"op": "step"}, {"op": "execute"}]))
+            scs.append(xc.scenario(f"sd{k}s{variant}", p, pre, [{"op": "step"} for _ in range(n)], entry))
+            scs.append(xc.scenario(f"sd{k}x{variant}", p, pre, [{"op": "execute"}, {"op": "step"}, {"op": "execute"}], entry))
     return scs
 
 
